@@ -87,6 +87,11 @@ class C18(Property):
             if combo[0] == 0:
                 # a font without any left-to-right glyph at all (the Latin glyph is absent)
                 out.append([{"part": "curs", "shapes": list(combo), "gsub": False, "nolatin": True}])
+            if combo[1] == 0:
+                # a font whose character map has only left-to-right and neutral characters (the Arabic
+                # glyph is absent): an unencoded glyph outside the GSUB closure is still not left-to-right
+                for gs in b["curs_gsub"]:
+                    out.append([{"part": "curs", "shapes": list(combo), "gsub": gs, "noarabic": True}])
         # cursive through the per-master designspace path, where a designspace rule (a -> x.alt) makes
         # the unencoded alternate a glyph of a left-to-right script
         for combo in itertools.product(range(len(CURS_SHAPES)), repeat=len(CURS_GLYPHS)):
@@ -97,6 +102,11 @@ class C18(Property):
             for rule in (False, True, 2):
                 out.append([{"part": "curs", "shapes": list(combo), "gsub": False, "ds_rule": rule, "ds": True}])
                 out.append([{"part": "curs", "shapes": list(combo), "gsub": False, "ds_rule": rule, "ds": "var"}])
+            if combo[2] == 0:
+                # call history on the writer objects: the same instances first build the variable features
+                # of ANOTHER family (all anchors elsewhere)
+                out.append([{"part": "curs", "shapes": list(combo), "gsub": False, "ds_rule": False, "ds": "var",
+                             "reuse": True}])
         return out
 
     def ops(self, h, b):
@@ -188,6 +198,8 @@ class C18(Property):
         for (n, uv), si in zip(CURS_GLYPHS, c["shapes"]):
             if n == "a" and c.get("nolatin"):
                 continue
+            if n == "beh-ar" and c.get("noarabic"):
+                continue
             g = {"width": 500, "contours": [B.box(10, 0, 90, 100)], "anchors": []}
             if uv:
                 g["unicodes"] = [uv]
@@ -226,7 +238,21 @@ class C18(Property):
             ds = B.build_designspace([{"name": "Weight", "tag": "wght", "min": 400, "default": 400, "max": 700}],
                                      [{"spec": spec, "location": {"Weight": 400}},
                                       {"spec": spec2, "location": {"Weight": 700}}], rules=rules)
-            if c["ds"] == "var":
+            if c["ds"] == "var" and c.get("reuse"):
+                from ufo2ft.featureWriters import (CursFeatureWriter, GdefFeatureWriter, KernFeatureWriter,
+                                                   MarkFeatureWriter)
+                writers = [KernFeatureWriter(), MarkFeatureWriter(), GdefFeatureWriter(), CursFeatureWriter()]
+
+                def moved(sp, d):
+                    return dict(sp, glyphs={n: dict(g, anchors=[(a[0], a[1] + d, a[2] - d) for a in g.get("anchors", ())])
+                                            for n, g in sp["glyphs"].items()})
+                other = B.build_designspace(
+                    [{"name": "Weight", "tag": "wght", "min": 400, "default": 400, "max": 700}],
+                    [{"spec": moved(spec, 100), "location": {"Weight": 400}},
+                     {"spec": moved(spec2, 160), "location": {"Weight": 700}}])
+                ufo2ft.compileVariableTTF(other, useProductionNames=False, featureWriters=writers)
+                tt = O.reload(ufo2ft.compileVariableTTF(ds, useProductionNames=False, featureWriters=writers))
+            elif c["ds"] == "var":
                 tt = O.reload(ufo2ft.compileVariableTTF(ds, useProductionNames=False))
             else:
                 out = ufo2ft.compileInterpolatableTTFsFromDS(ds, useProductionNames=False)
@@ -243,6 +269,10 @@ class C18(Property):
         viols = []
         feat = {"gsub": c["gsub"], "nolatin": bool(c.get("nolatin")), "ds": c.get("ds") or False,
                 "ds_rule": int(c.get("ds_rule") or 0)}
+        if c.get("noarabic"):
+            feat["noarabic"] = True
+        if c.get("reuse"):
+            feat["reuse"] = True
         # expected records: (glyph, entry, exit, rtl flag)
         want = set()
         for n, sh in shapes.items():
